@@ -39,6 +39,11 @@ class MsgPackSerializer : public VariantDataVisitor<size_t> {
   ARDUINOJSON_NO_SANITIZE("float-cast-overflow")
   enable_if_t<is_floating_point<T>::value && sizeof(T) == 8, size_t> visit(
       T value64) {
+    if (canConvertNumber<JsonInteger>(value64)) {
+      JsonInteger truncatedValue = JsonInteger(value64);
+      if (value64 == T(truncatedValue))
+        return visit(truncatedValue);
+    }
     float value32 = float(value64);
     if (value32 == value64)
       return visit(value32);
